@@ -55,7 +55,7 @@ def compare(cfg, ops):
     """run one history on both servers; -> (runners, violation or None)"""
     pair = {}
     for kind in ('threaded', 'asyncio'):
-        r, _ = hsuite.evaluate(kind, cfg, ops, [], ['drain'], seed=0)      # every live polling client reads until its queue is empty: *when* a message
+        r, _ = hsuite.evaluate(kind, cfg, ops, [], ['drain', 'by-history'], seed=0)      # every live polling client reads until its queue is empty: *when* a message
         # is delivered depends on the order of simultaneous timers (not compared), *that* it is delivered does not
         pair[kind] = r
     upto = min(first_silence(pair['threaded']), first_silence(pair['asyncio']))
@@ -75,7 +75,11 @@ def compare(cfg, ops):
         post = pair[lag].post[:upto]                      # the comparison stops at `upto`: what matters is the queue at that point
         fl = post[-1].get(s) if post else None
         queued = fl[4] if fl else 0
-        return long_[:len(short)] == short and len(long_) - len(short) <= queued
+        rl = pair[lag]
+        # ... and the lagging server must have had no occasion to deliver it: the comparison was cut before the end of the run, or
+        # (by the history, not by the server's own mark) an upgrade of the session is still in progress so that it cannot be read
+        excused = upto < len(rl.log) or oracles.handshake_in_progress(rl, s, len(rl.log) - 1)
+        return excused and long_[:len(short)] == short and len(long_) - len(short) <= queued
 
     if any(not same_session(s) for s in set(a[0]) | set(b[0])):
         s = sorted(k for k in set(a[0]) | set(b[0]) if not same_session(k))[0]
